@@ -15,8 +15,11 @@ Has(f) == f \in DOMAIN Ev
 IsEvent(e) == l <= Len(TraceLog) /\ Ev.ev = e /\ l' = l + 1
 
 RefsIn(H, o) == Cardinality({h \in 1..Len(H) : H[h].o = o /\ H[h].st = "held"})
+\* the implementation runs a failing Mount step and the deferred unregister + l.Done() in one go (no hook in between):
+\* while the specification still has that Release step ahead, projections are not compared
+PendingRelease == \E c \in 1..Len(calls') : calls'[c].pc = "fail" /\ calls'[c].h # 0
 ObsOK ==
-    Has("obs") =>
+    (Has("obs") /\ ~PendingRelease) =>
       LET ob == Ev.obs IN
         /\ \A mp \in MPs : lmap'[mp] = ob.lmap[mp] /\ fuse'[mp] = ob.fuse[mp]
         /\ Len(hs') = Len(ob.hs) /\ \A h \in 1..Len(hs') : hs'[h].o = ob.hs[h]
